@@ -2,6 +2,7 @@
 //! usage: harness <ID> <quick|thorough>   |   harness <ID> --replay <file>
 
 mod bridge;
+mod cachemc;
 mod formulas;
 mod nets;
 mod oracle;
@@ -30,6 +31,7 @@ pub fn generic_replay(case: &Value) -> Option<String> {
         Some("tree") => props::c06::replay(case),
         Some("prep") => props::c07::replay(case),
         Some("reject") => props::c14::replay(case),
+        Some("cache") => props::c04::replay(case),
         other => Some(format!("unknown replay kind {other:?}")),
     }
 }
@@ -76,6 +78,7 @@ fn main() {
         "C01" => props::c01::run(tier),
         "C02" => props::c02::run(tier),
         "C03" => props::c03::run(tier),
+        "C04" => props::c04::run(tier),
         "C05" => props::c05::run(tier),
         "C06" => props::c06::run(tier),
         "C07" => props::c07::run(tier),
